@@ -484,7 +484,21 @@ impl EnfWorld {
                         let vals: Vec<Dynamic> = if r == "|" { vec![] } else { r.split(',').map(parse_val).collect() };
                         // a plain request goes through enforce, enforce_mut or enforce_ex (same decision by specification);
                         // which one is a function of the request text
-                        let v = variant(&[r]) % 4;
+                        let v = variant(&[r]) % 5;
+                        // ... or, when every value is a string, as a tuple (the README's way: serde conversion per element)
+                        let strs: Option<Vec<String>> = if r == "|" { None } else { r.split(',').map(|x| x.strip_prefix("s:").map(unesc)).collect() };
+                        if !ctx && v == 4 { if let Some(t) = strs.as_ref().filter(|t| (1..=5).contains(&t.len())) {
+                            let t = t.clone();
+                            let res = catch(|| with_e!(&*e, x => match t.len() {
+                                1 => x.enforce((t[0].as_str(),)),
+                                2 => x.enforce((t[0].as_str(), t[1].as_str())),
+                                3 => x.enforce((t[0].as_str(), t[1].as_str(), t[2].as_str())),
+                                4 => x.enforce((t[0].as_str(), t[1].as_str(), t[2].as_str(), t[3].as_str())),
+                                _ => x.enforce((t[0].clone(), t[1].clone(), t[2].clone(), t[3].clone(), t[4].clone())),
+                            }));
+                            out.push(out_c(res));
+                            continue;
+                        } }
                         let res = catch(|| if ctx {
                             with_e!(&*e, x => x.enforce_with_context(EnforceContext::new(&unesc(f[1])), vals))
                         } else if v == 1 { with_e!(&mut *e, x => x.enforce_mut(vals)) }
